@@ -374,7 +374,7 @@ class C17(core.Check):
         r = core.rat
         if k == "line":
             p1, p2 = enc_v(FV(case["p1"])), enc_v(FV(case["p2"]))
-            lo, hi = impl["bounds"]
+            lo, hi = self._line_bounds(case, impl)
             reqs = [f"c17.lineinit {p1} {p2} {r(impl['s'])} {r(lo)} {r(hi)} {enc_v(FV(case['pos']))}"]
             reqs += [f"c17.line {p1} {p2} {r(impl['s'])} {r(float(Fr(t)))}" for t in case["ts"]]
             return reqs
@@ -404,6 +404,12 @@ class C17(core.Check):
                     reqs.append(f"c17.rvalid {enc_v(a)} {o} {l0} {enc_v(st['leader'])} {f0} {enc_v(st['follower'])} 1/10000000")
             return reqs
         return []
+
+    @staticmethod
+    def _line_bounds(case, impl):
+        """documented bounds of a LineClamp: the given ones, else 0 … |p2 - p1| (the length as the library computed it)"""
+        b = case["bounds"]
+        return (0.0, impl["s"]) if b is None else (float(Fr(b[0])), float(Fr(b[1])))
 
     def compare(self, case: dict, impl: Any, model: List[str]) -> Optional[str]:
         k = case["kind"]
@@ -483,7 +489,9 @@ class C17(core.Check):
             p1, p2, pos = A(FV(case["p1"])), A(FV(case["p2"])), A(FV(case["pos"]))
             d = p2 - p1
             sc = _scale(p1, p2, pos)
-            lo, hi = impl["bounds"]
+            lo, hi = self._line_bounds(case, impl)
+            if not _near([lo, hi], impl["bounds"], 1e-12 * sc):
+                out.append({"site": "LineClamp:default-bounds", "what": "bounds are not (0, |p2 - p1|) / the ones given", "observed": impl["bounds"], "expected": [lo, hi]})
             t0 = min(max(float((pos - p1) @ d / np.linalg.norm(d)), lo), hi)
             exp = p1 + t0 * d / np.linalg.norm(d)
             if not _near(exp, impl["initial"], MIN_TOL * sc):
@@ -616,7 +624,12 @@ class C17(core.Check):
                     if abs(math.remainder(al - af, 2 * math.pi)) > 1e-6:
                         out.append({"site": f"{name}:follower-angle", "what": f"leader -> {m}: leader turned by {al}, follower by {af}", "observed": st["follower"]})
                         break
-        return out
+        seen, uniq = set(), []
+        for v in out:
+            if v["site"] not in seen:
+                seen.add(v["site"])
+                uniq.append(v)
+        return uniq
 
     # ------------------------------------------------------------------ bookkeeping
     def classify(self, case, impl):
